@@ -10,7 +10,8 @@ import shutil
 import subprocess
 
 OUT = "/verif/seeded"
-ROUNDS = [("/var/tmp/mutants", "/var/tmp/seedres", ""), ("/var/tmp/mutants2", "/var/tmp/seedres2", "r2")]
+ROUNDS = [("/var/tmp/mutants", "/var/tmp/seedres", ""), ("/var/tmp/mutants2", "/var/tmp/seedres2", "r2"),
+          ("/var/tmp/mutants3", "/var/tmp/seedres3", "r3")]
 
 
 def main():
@@ -47,7 +48,7 @@ def main():
                 meta.update({
                     "property": prop,
                     "origin": "independent sub-agent given only the property text and a scratch worktree"
-                              + (" (second round, on the repaired tree)" if tag else ""),
+                              + ({"r2": " (second round, on the repaired tree)", "r3": " (third round: history- and entry-point-dependent breaks)"}.get(tag, "")),
                     "confirmed": {"against_repo_head": head, "demo_on_clean_tree_exit": r.get("demo_clean"), "patch_applies": True,
                                   "baseline_453_unchanged": True, "demo_with_patch_exit": r.get("demo_mutant"),
                                   "how": "tools/try_mutant.py (scratch worktree of /repo HEAD; git apply; tools/baseline.sh; demo.py; "
@@ -60,7 +61,7 @@ def main():
     with open(f"{OUT}/INDEX.md", "w") as fh:
         fh.write("# Seeded property-breaking changes\n\nEach directory holds patch.diff, demo.py (passes on the clean tree, fails with the "
                  "patch) and meta.json.\nAll keep the repository's 453-test baseline passing.  `check` is the result of the property's "
-                 "quick check on the patched tree\n(r2 = second round, written after the first-round repairs).\n\n")
+                 "quick check on the patched tree\n(r2 = second round, written after the first-round repairs; r3 = third round).\n\n")
         fh.write("| property | mutant | verification | check | first violation keys | change | needs |\n|---|---|---|---|---|---|---|\n")
         for r in rows:
             fh.write("| " + " | ".join(str(x).replace("|", "/").replace("\n", " ") for x in r) + " |\n")
